@@ -106,6 +106,24 @@ type Ctx struct {
 	bounded   string
 	skolemN   int
 	funcCells map[int]*FuncVal
+	nameBase  string
+	h0pos     map[string]int
+	splits    [][]*Term // each entry: exhaustive list of case hypotheses
+	trivialSafety int
+	witness   []witnessTerm
+}
+
+type witnessTerm struct {
+	text string
+	t    *Term
+	mark int
+}
+
+func (cx *Ctx) base() string {
+	if cx.nameBase != "" {
+		return cx.nameBase
+	}
+	return cx.fn.String()
 }
 
 func (cx *Ctx) nextBound() int { cx.boundN++; return cx.boundN }
@@ -118,6 +136,10 @@ func (cx *Ctx) initHeap(name string) *Term {
 	if !ok {
 		panic("unknown heap " + name)
 	}
+	if cx.h0pos == nil {
+		cx.h0pos = map[string]int{}
+	}
+	cx.h0pos[name] = cx.w.b.Mark()
 	h := cx.w.b.Const("H0_"+name, srt)
 	cx.h0[name] = h
 	return h
@@ -308,9 +330,26 @@ func (cx *Ctx) leafSorts(typ types.Type, out map[Sort]bool) {
 func (cx *Ctx) inMod(l *Term, srt Sort, m ModLoc) *Term {
 	b := cx.w.b
 	switch {
+	case m.all:
+		return b.True()
 	case m.loc != nil:
 		return cx.inside(l, m.typ, srt, func(x *Term) *Term { return b.Eq(x, m.loc) })
 	case m.elems != nil:
+		if isByteType(m.typ) {
+			// raw memory: the bytes themselves and every struct view laid over them
+			if _, ok := srt.IsBV(); !ok {
+				return b.False()
+			}
+			under := func(x *Term) *Term {
+				return b.And(b.mk("(_ is Elem)", SBool, x), b.Eq(b.App("ebase", SLoc, x), m.elems))
+			}
+			fb := b.App("fbase", SLoc, l)
+			fbb := b.App("fbase", SLoc, fb)
+			views := b.Or(
+				b.And(b.mk("(_ is Fld)", SBool, l), under(fb)),
+				b.And(b.mk("(_ is Fld)", SBool, l), b.mk("(_ is Fld)", SBool, fb), under(fbb)))
+			return b.Or(under(l), views)
+		}
 		return cx.inside(l, m.typ, srt, func(x *Term) *Term {
 			return b.And(b.mk("(_ is Elem)", SBool, x), b.Eq(b.App("ebase", SLoc, x), m.elems))
 		})
@@ -318,9 +357,23 @@ func (cx *Ctx) inMod(l *Term, srt Sort, m ModLoc) *Term {
 	return b.False()
 }
 
+func isByteType(t types.Type) bool {
+	bt, ok := t.Underlying().(*types.Basic)
+	return ok && (bt.Kind() == types.Uint8 || bt.Kind() == types.Int8)
+}
+
 // havocLoc makes the contents of a modifies entry arbitrary.
 func (cx *Ctx) havocLoc(st *State, m ModLoc) {
 	w, b := cx.w, cx.w.b
+	if m.all {
+		for _, s := range []Sort{SBool, SBV(8), SBV(16), SBV(32), SBV(64), SInt, SLoc, SSlice, SIface} {
+			w.heapName(s)
+		}
+		for _, hn := range sortedKeys(w.heapSort) {
+			st.set(hn, b.Const("hvall_"+hn, w.heapSort[hn]))
+		}
+		return
+	}
 	if m.mapp != nil {
 		valH, domH, lnH := w.mapHeapNames(m.mtyp)
 		for _, hn := range []string{valH, domH, lnH} {
@@ -338,6 +391,11 @@ func (cx *Ctx) havocLoc(st *State, m ModLoc) {
 	// quantified havoc for every leaf sort involved
 	sorts := map[Sort]bool{}
 	cx.leafSorts(m.typ, sorts)
+	if m.elems != nil && isByteType(m.typ) {
+		for _, n := range []int{8, 16, 32, 64} {
+			sorts[SBV(n)] = true
+		}
+	}
 	var names []string
 	for s := range sorts {
 		names = append(names, string(s))
@@ -492,6 +550,31 @@ func (cx *Ctx) sameHeaps(a, c *State) *Term {
 	return b.And(cs...)
 }
 
+func (cx *Ctx) preserved(cur, old *State) *Term {
+	b, w := cx.w.b, cx.w
+	var cs []*Term
+	for _, hn := range sortedKeys(w.heapSort) {
+		hc, ho := cur.heap(cx, hn), old.heap(cx, hn)
+		if def(hc) == def(ho) {
+			continue
+		}
+		nm := fmt.Sprintf("l?%d", cx.nextBound())
+		l := b.BVar(nm, SLoc)
+		ex := []*Term{cx.rootIsNew(l)}
+		if len(w.exemptFID) > 0 {
+			var ids []*Term
+			for fid := range w.exemptFID {
+				ids = append(ids, b.Eq(b.App("fid", SInt, l), b.Int(int64(fid))))
+			}
+			sort.Slice(ids, func(i, j int) bool { return ids[i].id < ids[j].id })
+			ex = append(ex, b.And(b.mk("(_ is Fld)", SBool, l), b.Or(ids...)))
+		}
+		ex = append(ex, b.Eq(b.Select(hc, l), b.Select(ho, l)))
+		cs = append(cs, b.Forall([]BoundVar{{nm, SLoc}}, b.Or(ex...)))
+	}
+	return b.And(cs...)
+}
+
 func (cx *Ctx) isFreshLoc(v Val) *Term {
 	b := cx.w.b
 	l := v.t
@@ -510,13 +593,13 @@ func (cx *Ctx) rootIsNew(l *Term) *Term {
 // ---------- obligations ----------
 
 func (cx *Ctx) newObligation(kind, label, clause, pos string, reach, goal *Term, props []string) *Obligation {
-	base := fmt.Sprintf("%s/%s[%s]", cx.fn.String(), kind, label)
+	base := fmt.Sprintf("%s/%s[%s]", cx.base(), kind, label)
 	cx.names[base]++
 	name := base
 	if n := cx.names[base]; n > 1 {
 		name = fmt.Sprintf("%s#%d", base, n)
 	}
-	o := &Obligation{Name: name, Kind: kind, Label: label, Func: cx.fn.String(), Props: props, Pos: pos, Clause: clause,
+	o := &Obligation{Name: name, Kind: kind, Label: label, Func: cx.base(), Props: props, Pos: pos, Clause: clause,
 		mark: cx.w.b.Mark(), nAssume: len(cx.assumes), reach: reach, goal: goal, cx: cx, Bounded: cx.bounded}
 	if isTrue(goal) || isFalse(reach) {
 		o.Trivial = true
@@ -526,8 +609,12 @@ func (cx *Ctx) newObligation(kind, label, clause, pos string, reach, goal *Term,
 }
 
 // Query renders the SMT-LIB text of an obligation (negated goal).
-func (o *Obligation) Query(getModel bool) string {
+func (o *Obligation) Query(getModel bool) string { return o.QueryCase(getModel, nil) }
+
+func (o *Obligation) QueryCase(getModel bool, hyp *Term) string {
 	cx := o.cx
+	cx.w.mu.Lock()
+	defer cx.w.mu.Unlock()
 	w := cx.w
 	var body strings.Builder
 	di := 0
@@ -544,6 +631,14 @@ func (o *Obligation) Query(getModel bool) string {
 	if o.mark > di {
 		w.b.Definitions(di, o.mark, &body)
 	}
+	if !o.IsCover {
+		body.WriteString(cx.axioms(o.mark))
+	}
+	if hyp != nil {
+		body.WriteString("(assert ")
+		hyp.write(&body)
+		body.WriteString(")\n")
+	}
 	body.WriteString("(assert ")
 	o.reach.write(&body)
 	body.WriteString(")\n")
@@ -556,23 +651,44 @@ func (o *Obligation) Query(getModel bool) string {
 	}
 	body.WriteString("(check-sat)\n")
 	if getModel {
+		var ws []string
+		for _, wt := range cx.witness {
+			if wt.mark <= o.mark {
+				ws = append(ws, wt.t.String())
+			}
+		}
+		if len(ws) > 0 && !o.IsCover {
+			body.WriteString("(get-value (" + strings.Join(ws, " ") + "))\n")
+		}
 		body.WriteString("(get-model)\n")
 	}
 	var sb strings.Builder
 	sb.WriteString(w.Prelude())
-	sb.WriteString(cx.axioms())
 	sb.WriteString(body.String())
 	return sb.String()
 }
 
 // axioms: zero-initialisation of objects allocated during the function, for
 // the initial heaps (cells of not-yet-allocated objects may be assumed zero).
-func (cx *Ctx) axioms() string {
+func (cx *Ctx) axioms(mark int) string {
 	var sb strings.Builder
 	w := cx.w
+	// values stored in the initial heap do not point into objects allocated later
+	if h0, ok := cx.h0["H_Loc"]; ok && cx.h0pos["H_Loc"] < mark {
+		nm := quoteSym(h0.name)
+		fmt.Fprintf(&sb, "(assert (forall ((l Loc)) (! (not (rootIsNew3 (select %s l))) :pattern ((select %s l)))))\n", nm, nm)
+	}
+	if h0, ok := cx.h0["H_Slice"]; ok && cx.h0pos["H_Slice"] < mark {
+		nm := quoteSym(h0.name)
+		fmt.Fprintf(&sb, "(assert (forall ((l Loc)) (! (not (rootIsNew3 (sbase (select %s l)))) :pattern ((select %s l)))))\n", nm, nm)
+	}
+	if h0, ok := cx.h0["H_Iface"]; ok && cx.h0pos["H_Iface"] < mark {
+		nm := quoteSym(h0.name)
+		fmt.Fprintf(&sb, "(assert (forall ((l Loc)) (! (not (rootIsNew3 (iptr (select %s l)))) :pattern ((select %s l)))))\n", nm, nm)
+	}
 	for _, hn := range sortedKeys(cx.axiomsFor) {
 		h0, ok := cx.h0[hn]
-		if !ok {
+		if !ok || cx.h0pos[hn] >= mark {
 			continue
 		}
 		vs := arrayValSort(h0.sort)
